@@ -381,7 +381,9 @@ CLEANUP:
 	/* free the last allocated basis, and if we wanted to save it, do so */
 	if (basis)
 	{
-		if (writebasis)
+		/* an infeasible or unbounded problem may leave no basis to write: that is
+		 * not an error of the run (and an earlier error must not be overwritten) */
+		if (writebasis && !rval && p_mpq && p_mpq->basis)
 			rval = mpq_QSwrite_basis (p_mpq, 0, writebasis);
 	}
 	mpq_QSfree_basis (basis);
